@@ -668,7 +668,7 @@ def _scan_quant_nth(f):
             stack.append(t.body())
             continue
         if z3.is_app(t):
-            if t.decl().kind() == z3.Z3_OP_SEQ_NTH and not _has_free_var(t):
+            if _is_elem(t) and not _has_free_var(t):
                 nths.setdefault(t.arg(0).get_id(), {})[t.arg(1).get_id()] = t.arg(1)
             stack.extend(t.children())
     _scan_cache[k] = (quants, nths)
@@ -724,6 +724,17 @@ def _has_free_var(t):
     return False
 
 
+def _is_elem(t):
+    """an element term: S[t] of a sequence, or the one-character substring s[t:t+1] of a string"""
+    k = t.decl().kind()
+    if k == z3.Z3_OP_SEQ_NTH:
+        return True
+    if k == z3.Z3_OP_SEQ_EXTRACT and t.num_args() == 3:
+        n = t.arg(2)
+        return z3.is_int_value(n) and n.as_long() == 1
+    return False
+
+
 def _nth_on_var(body):
     """sequence terms S such that S[Var(0)] occurs in body"""
     out = {}
@@ -734,7 +745,7 @@ def _nth_on_var(body):
             continue
         seen.add(x.get_id())
         if z3.is_app(x):
-            if x.decl().kind() == z3.Z3_OP_SEQ_NTH and z3.is_var(x.arg(1)) and z3.get_var_index(x.arg(1)) == 0:
+            if _is_elem(x) and z3.is_var(x.arg(1)) and z3.get_var_index(x.arg(1)) == 0:
                 out[x.arg(0).get_id()] = x.arg(0)
             stack.extend(x.children())
     return list(out.values())
